@@ -1,7 +1,7 @@
 """C02 – tags are the union over all matching rules; tag-only rules never categorize (spec module Engine)."""
 import core
 import tlc
-from props import engine_common
+from props import engine_common, engine_tracecheck
 
 
 def run(ck):
@@ -16,4 +16,6 @@ def run(ck):
     ck.extra['rule'] = ('the Engine universe in both rule modes; tags compared as sets with the union the spec computes on every '
                         'path; every rule without category is additionally deleted from the real file and merchant/category/'
                         'subcategory must not move. non-trivial = at least two matching rules and a non-empty tag set')
+    # code -> spec: random files over the full concrete grammar, recorded from the real code, validated by Trace_Engine
+    engine_tracecheck.run(ck, 'c02', 1600 if quick else 16000)
     ck.exhaustive = True
